@@ -270,6 +270,85 @@ func c05Case(g *Gen, p *ir.Program, cfg c05Cfg, x *big.Int) {
 		ra, _ = c05Interp(p, cfg, x, true)
 	}
 	g.Line("c05", dump, pre, cfg.in, cfg.out, cfg.prefix, x.String(), named, temps, rd, ra, b01(iw), b01(pc))
+	c05HistoryProbes(g, p, cfg, x, named, rd, ra)
+}
+
+// c05Held is the previously allocated program with what it computed: allocating another program (with
+// other names) afterwards must not change it — operand objects and pass results are per program.
+var c05Held struct {
+	p             *ir.Program
+	cfg           c05Cfg
+	x             *big.Int
+	named, rd, ra string
+}
+
+// c05WellFormed: every input is element 0 or the output of an earlier instruction, and no index is
+// output twice (the domain of the property).
+func c05WellFormed(p *ir.Program) bool {
+	def := map[int]bool{0: true}
+	for _, i := range p.Instructions {
+		for _, in := range i.Op.Inputs() {
+			if !def[in.Index] {
+				return false
+			}
+		}
+		if def[i.Output.Index] {
+			return false
+		}
+		def[i.Output.Index] = true
+	}
+	return true
+}
+
+func c05HistoryProbes(g *Gen, p *ir.Program, cfg c05Cfg, x *big.Int, named, rd, ra string) {
+	if g.notesViolation() {
+		return
+	}
+	// (1) the program allocated before this one still computes what it computed
+	if h := &c05Held; h.p != nil {
+		n2 := c05DumpNamed(h.p)
+		rd2, _ := c05Interp(h.p, h.cfg, h.x, false)
+		ra2, _ := c05Interp(h.p, h.cfg, h.x, true)
+		if n2 != h.named || rd2 != h.rd || ra2 != h.ra {
+			g.Notes = append(g.Notes, fmt.Sprintf("VIOLATION: program %s allocated with (%s,%s,%s) computed %s/%s; after another program was allocated it reads %s and computes %s/%s",
+				c05DumpIR(h.p), h.cfg.in, h.cfg.out, h.cfg.prefix, h.rd, h.ra, n2, rd2, ra2))
+			return
+		}
+	}
+	c05Held.p = nil
+	if named == "err" || named == "panic" || len(p.Instructions) == 0 {
+		return
+	}
+	c05Held.p, c05Held.cfg, c05Held.x, c05Held.named, c05Held.rd, c05Held.ra = p, cfg, x, named, rd, ra
+	// (2) clone, extend by a doubling of the result, allocate the clone under other names: the clone
+	// must compute twice the value (pass results of the original must not be carried over)
+	v, ok := new(big.Int).SetString(rd, 10)
+	if !ok || ra != rd || g.N%4 != 0 || !c05WellFormed(p) {
+		return
+	}
+	want := new(big.Int).Lsh(v, 1).String()
+	var cl *ir.Program
+	other := c05Cfgs[(g.N/4)%len(c05Cfgs)]
+	got, gotA, st := "-", "-", "ok"
+	if pn := safe(func() {
+		cl = p.Clone()
+		out := p.Output().Index
+		cl.AddInstruction(&ir.Instruction{Output: ir.Index(out + 1), Op: ir.Double{X: ir.Index(out)}})
+		a := pass.Allocator{Input: other.in, Output: other.out, Format: other.prefix + "%d"}
+		if err := a.Execute(cl); err != nil {
+			st = "err"
+			return
+		}
+		got, _ = c05Interp(cl, other, x, false)
+		gotA, _ = c05Interp(cl, other, x, true)
+	}); pn != "" {
+		st = "panic"
+	}
+	g.Count("clone-extend-allocate")
+	if st != "ok" || got != want || gotA != want {
+		g.Notes = append(g.Notes, fmt.Sprintf("VIOLATION: clone of %s extended by a doubling and allocated with (%s,%s,%s): %s, computes %s/%s, want %s",
+			c05DumpIR(p), other.in, other.out, other.prefix, st, got, gotA, want))
+	}
 }
 
 func c17Case(g *Gen, p *ir.Program) {
